@@ -59,7 +59,10 @@ API:
   TYPES, ATTRS                   key -> xDSL attribute pools (extend with register_type / register_attr); the generator
                                  draws from SAFE_ATTR_KEYS unless Cfg(float_edge_attrs=True); FLOAT_EDGE_FAMILIES lists
                                  (name, keyA, keyB) pairs of attributes that differ only in NaN payload / sign / zero sign
-                                 (bare and nested in array, dictionary, dense attributes) for single-point mutations
+                                 (bare and nested in array, dictionary, dense attributes) for single-point mutations;
+                                 UNREG_ATTR_FAMILIES / UNREG_TYPE_FAMILIES list (name, keyA, keyB) pairs of UNREGISTERED
+                                 attributes / types with the same name and different bodies (`#foo.bar<1>` vs `#foo.bar<2>`,
+                                 `!foo.vec<4>` vs `!foo.vec<8>`, opaque spelling, nested in array/dict/tensor/function types)
 """
 from __future__ import annotations
 
@@ -72,6 +75,9 @@ from dataclasses import dataclass
 TYPES: dict = {}
 ATTRS: dict = {}
 SAFE_ATTR_KEYS: list = []        # keys of ATTRS drawn by default
+SAFE_TYPE_KEYS: list = []        # keys of TYPES used by mutate_spec (the ur_* unregistered types are not among them)
+UNREG_ATTR_FAMILIES: list = []   # (family name, attr key A, attr key B): unregistered attributes, same name, different body
+UNREG_TYPE_FAMILIES: list = []   # (family name, type key A, type key B): unregistered types, same name, different body
 FLOAT_EDGE_FAMILIES: list = []   # (family name, attr key A, attr key B): attributes differing only in float corner-case bits
 _CTX = None
 TERMINATOR_NAMES = ("test.termop",)
@@ -102,6 +108,7 @@ def _init_pools():
         "fn": b.FunctionType.from_lists([b.i32], [b.i64]), "tuple": b.TupleType([b.i32, b.f32]),
         "none": b.NoneType(), "cplx": b.ComplexType(b.f32),
     })
+    SAFE_TYPE_KEYS.extend(sorted(T))
     A = ATTRS
     A.update({
         "unit": b.UnitAttr(), "i32_0": b.IntegerAttr(0, b.i32), "i32_5": b.IntegerAttr(5, b.i32),
@@ -141,6 +148,36 @@ def _init_pools():
         for x, y in (("nan_q", "nan_p1"), ("nan_q", "nan_neg"), ("nan_q", "nan_s"), ("nan_q", "nan_f32p"), ("pzero", "nzero"),
                      ("pinf", "ninf"), ("nan_q", "pinf"), ("nan_q", "nan_q"), ("nzero", "nzero")):
             FLOAT_EDGE_FAMILIES.append((f"{shape}:{x}/{y}", f"fe_{shape}_{x}", f"fe_{shape}_{y}"))
+    # unregistered attributes / types: SAME name, different body (plus opaque `#foo<...>` spelling), bare and nested.
+    # Not part of the default pools; used through UNREG_ATTR_FAMILIES / UNREG_TYPE_FAMILIES.
+    def ur(name, body, is_type=False, opaque=False):
+        return b.UnregisteredAttr.with_name_and_type(name, is_type)(name, is_type, opaque, body)
+    ua = {"bar1": ur("foo.bar", "1"), "bar2": ur("foo.bar", "2"), "bar_empty": ur("foo.bar", ""),
+          "cfg4": ur("foo.cfg", "tile = 4"), "cfg8": ur("foo.cfg", "tile = 8"),
+          "opq_fast": ur("foo.mode", " fast", opaque=True), "opq_slow": ur("foo.mode", " slow", opaque=True),
+          "baz1": ur("foo.baz", "1")}
+    for k, v in ua.items():
+        A["ur_" + k] = v
+        A["ur_arr_" + k] = b.ArrayAttr([b.IntegerAttr(1, b.i32), v])
+        A["ur_dict_" + k] = b.DictionaryAttr({"u": v, "g": b.UnitAttr()})
+    for shape in ("", "arr_", "dict_"):
+        for x, y in (("bar1", "bar2"), ("bar1", "bar_empty"), ("cfg4", "cfg8"), ("opq_fast", "opq_slow"), ("bar1", "baz1"),
+                     ("bar1", "bar1")):
+            UNREG_ATTR_FAMILIES.append((f"{shape or 'bare_'}{x}/{y}", f"ur_{shape}{x}", f"ur_{shape}{y}"))
+    ut = {"vec4": ur("foo.vec", "4", True), "vec8": ur("foo.vec", "8", True), "vec_empty": ur("foo.vec", "", True),
+          "arg4": ur("foo.arg", "4", True), "opq_t1": ur("foo.ty", " a", True, True), "opq_t2": ur("foo.ty", " b", True, True)}
+    for k, v in ut.items():
+        T["ur_" + k] = v
+        A["ur_ty_" + k] = v
+    T["ur_tensor_vec4"] = b.TensorType(ut["vec4"], [2])
+    T["ur_tensor_vec8"] = b.TensorType(ut["vec8"], [2])
+    T["ur_fn_vec4"] = b.FunctionType.from_lists([ut["vec4"]], [b.i32])
+    T["ur_fn_vec8"] = b.FunctionType.from_lists([ut["vec8"]], [b.i32])
+    for x, y in (("vec4", "vec8"), ("vec4", "vec_empty"), ("vec4", "arg4"), ("opq_t1", "opq_t2"), ("tensor_vec4", "tensor_vec8"),
+                 ("fn_vec4", "fn_vec8"), ("vec4", "vec4")):
+        UNREG_TYPE_FAMILIES.append((f"{x}/{y}", "ur_" + x, "ur_" + y))
+    for x, y in (("vec4", "vec8"), ("opq_t1", "opq_t2")):
+        UNREG_ATTR_FAMILIES.append((f"ty_{x}/{y}", "ur_ty_" + x, "ur_ty_" + y))
     _CTX = Context(allow_unregistered=True)
     _CTX.load_dialect(b.Builtin)
     _CTX.load_dialect(Test)
@@ -149,6 +186,8 @@ def _init_pools():
 def register_type(key: str, t):
     _init_pools()
     TYPES[key] = t
+    if key not in SAFE_TYPE_KEYS:
+        SAFE_TYPE_KEYS.append(key)
 
 
 def register_attr(key: str, a):
@@ -781,7 +820,7 @@ def mutate_spec(rng: random.Random, spec, kind: str | None = None, attr_keys=Non
     ops = [o for o in walk_ops(s) if o["name"] != "builtin.module"]
     blocks = list(walk_blocks(s))
     regions = _regions_of(s)
-    types = sorted(TYPES)
+    types = list(SAFE_TYPE_KEYS)
     attrs = list(attr_keys) if attr_keys is not None else list(SAFE_ATTR_KEYS)
     next_op = max([o["id"] for o in walk_ops(s)] + [-1]) + 1
     next_block = max([b["id"] for b in blocks] + [-1]) + 1
